@@ -129,6 +129,22 @@ def write_evidence(pid, tier, seed, mod, m, wall, n_viol, known_lines):
     return path
 
 
+def _default_signal_dispositions():
+    """Ignored signals are inherited through fork and exec.  Started under nohup (SIGHUP ignored) or as a
+    background job of a non-interactive shell (SIGINT and SIGQUIT ignored), every child of every check would
+    ignore those signals too and `kill -HUP $$` would not be the fate of the child any more.  The checks assume
+    the dispositions of an ordinary foreground process."""
+    import signal
+    for num in range(1, signal.NSIG):
+        if num in (signal.SIGPIPE, getattr(signal, 'SIGXFSZ', -1)):
+            continue        # ignored by Python itself
+        try:
+            if signal.getsignal(num) == signal.SIG_IGN:
+                signal.signal(num, signal.SIG_DFL)
+        except (OSError, ValueError, RuntimeError):
+            pass
+
+
 def main(argv=None):
     argv = list(sys.argv[1:] if argv is None else argv)
     if len(argv) < 2:
@@ -144,6 +160,7 @@ def main(argv=None):
         print('tier must be quick or thorough')
         return 2
     seed = int(os.environ.get('VERIF_SEED', '1') or '1')
+    _default_signal_dispositions()
     modname = 'vf.props.%s' % pid.lower()
     t0 = time.time()
     try:
